@@ -69,12 +69,14 @@ def q_matrix(q):
 @contextmanager
 def hyps(*rels):
     """rels: (leading atom name, power, El)"""
+    saved = dict(A.CTX.hyps)
     for name, k, poly in rels:
         A.add_hyp(name, k, poly)
     try:
         yield
     finally:
-        A.clear_hyps()
+        A.CTX.hyps.clear()
+        A.CTX.hyps.update(saved)
 
 
 def unit_quat_hyp(name):
